@@ -35,4 +35,12 @@ CONFIG = {
             "probe logs are compared as multisets: only which operands are evaluated is asserted, not their order",
         ],
     },
+    "C19": {
+        "quick": {"checks": 6000, "shards": 4, "timeout": 600},
+        "thorough": {"checks": 300000, "shards": 14, "timeout": 3000, "shrinktime": "60s"},
+        "assumptions": [
+            "embed.FS cannot be generated at run time: the embed loader is queried over one fixed embedded tree",
+            "file-system trees live in per-case temporary directories inside the driver's work directory; backslashes in paths are not generated (only converted on Windows)",
+        ],
+    },
 }
